@@ -382,7 +382,7 @@ Definition eval_src (fl : flavour) (objs : list obj) (T1 : table) (s1 : st) (r :
         match fl with
         | Spec => SExc EInvalidFD
         | Impl => if (v =? -1)%Z then SPort closed_port false s1   (* DEFECT: -1 means close *)
-                  else SCrash                                       (* DEFECT: fm.ports[-n] *)
+                  else SExc EInvalidFD          (* src < 0 (since fix fdddbae; was a panic) *)
         end
       else match tget T1 (Z.to_nat v) with
            | None => SExc EInvalidFD
@@ -413,8 +413,7 @@ Definition exec_redir (fl : flavour) (objs : list obj) (x : fstate) (r : redir) 
   match eval_dst r with
   | None => RExc EBadValue x
   | Some dz =>
-    if (dz <? 0)%Z then
-      match fl with Impl => RCrash (* DEFECT: growAccess indexes [-n] *) | Spec => RExc EInvalidFD x end
+    if (dz <? 0)%Z then RExc EInvalidFD x   (* dst < 0 (since fix fdddbae; was a panic in growAccess) *)
     else
     let d := Z.to_nat dz in
     let T1 := grow None (fs_T x) d in
